@@ -611,6 +611,67 @@ def r04_3(ctx):
     ctx.ob("constructions", n_c >= 5, "lib", f"{n_c} construction(s) of State-bearing objects")
 
 
+_ALLOC_SIZE_ARG = {"with_capacity": 0, "with_capacity_in": 0, "with_capacity_and_hasher": 0, "reserve": 1, "reserve_exact": 1, "try_reserve": 1, "resize": 1, "from_elem": 1}
+_HINT_PASS = ("::unwrap_or", "::unwrap_or_default", "::unwrap_or_else", "::unwrap", "::expect", "::map_or", "std::cmp::max", "std::cmp::Ord::max", "saturating_add", "saturating_mul", "wrapping_add", "checked_add", "next_power_of_two")
+
+
+@rule("R04.5", 2, "no allocation is sized by an input-declared length: capacities derived from a size_hint are capped by a constant, or listed as reviewed", ["C04"])
+def r04_5(ctx):
+    rv = json.load(open(os.path.join(VERIF, "tables", "hint_allocs.json")))["reviewed"]
+    n_alloc = 0
+    for crate in (ctx.lib, ctx.bin):
+        per_file = {}
+        for b in crate.bodies:
+            for bb, t in b.calls():
+                f = fn_of(t) or {}
+                idx = _ALLOC_SIZE_ARG.get(f.get("name"))
+                if idx is None or f.get("crate") == "xt" or len(t["args"]) <= idx:
+                    continue
+                n_alloc += 1
+                tr = trace(b, t["args"][idx], passthrough_extra=_HINT_PASS)
+                srcs = []
+                if tr.origin and tr.origin[0] == "call":
+                    srcs = [tr.origin[2]]
+                elif tr.origin and tr.origin[0] == "multi":
+                    for _, _, k, p_ in tr.origin[2]:
+                        if k == "call":
+                            srcs.append(p_)
+                hinted = any((fn_of(c) or {}).get("name") in ("size_hint", "len_hint") for c in srcs)
+                # a binary `+`/`*` of a hint is as unbounded as the hint
+                if not hinted and tr.origin and tr.origin[0] == "rvalue" and tr.origin[1]["rv"]["k"] == "binop":
+                    for side in ("a", "b"):
+                        t2 = trace(b, tr.origin[1]["rv"][side], passthrough_extra=_HINT_PASS)
+                        if t2.origin and t2.origin[0] == "call" and (fn_of(t2.origin[2]) or {}).get("name") in ("size_hint", "len_hint"):
+                            hinted = True
+                if hinted:
+                    per_file.setdefault(b.file, []).append((b, bb, f.get("name")))
+        want = rv.get(crate.kind, {})
+        for fl, sites_ in sorted(per_file.items()):
+            allowed = want.get(fl, {}).get("count", 0)
+            ok = len(sites_) <= allowed
+            b0, bb0, nm = sites_[0]
+            ctx.ob(f"{crate.kind}:{fl}:hint-sized-allocation", ok, site(b0, bb0),
+                   f"{len(sites_)} site(s) sized by a size_hint, reviewed {allowed}: {want.get(fl, {}).get('why', '')[:240]}" if ok else
+                   f"unreviewed allocation sized by an input-declared length: {len(sites_)} `{nm}`(size_hint ..) site(s) in {fl} at {sorted({(x.name, x.blocks[y]['term'].get('line')) for x, y, _ in sites_})}, {allowed} reviewed: a five-byte header can request gigabytes and abort the process")
+        for fl, e in sorted(want.items()):
+            if fl not in per_file:
+                ctx.ob(f"{crate.kind}:{fl}:hint-sized-allocation", True, fl, "reviewed site(s) no longer present", trivial=True)
+    ctx.ob("allocation-sites-seen", n_alloc >= 2, "lib+bin", f"{n_alloc} sized-allocation call(s) examined")
+    # positive control: the enumerator sees a hint-sized allocation in the control crate
+    ctl = ctx.facts.controls
+    if ctl:
+        seen = False
+        for b in ctl.bodies:
+            for bb, t in b.calls():
+                f = fn_of(t) or {}
+                idx = _ALLOC_SIZE_ARG.get(f.get("name"))
+                if idx is not None and len(t["args"]) > idx:
+                    tr = trace(b, t["args"][idx], passthrough_extra=_HINT_PASS)
+                    if tr.origin and tr.origin[0] == "call" and (fn_of(tr.origin[2]) or {}).get("name") == "size_hint":
+                        seen = True
+        ctx.ob("control:hint-sized-allocation", seen, "tables/controls/src/lib.rs", "enumerator sees `with_capacity(iter.size_hint().0)` in the positive control", trivial=True)
+
+
 @rule("R04.4", 2, "precondition of the chunker's reviewed slicing/unwrap sites: libyaml is pinned to UTF-8 (byte-accurate marks) before it is given input", ["C04", "C03"])
 def r04_4(ctx):
     lib = ctx.lib
